@@ -6,6 +6,6 @@ CONSTANTS
   Classes = {"GoodKA", "BadLine", "BadCL", "TlsHello", "Truncate", "Rest"}
   Racing = FALSE
   Linger = FALSE
-  DefectSets = {{}}
+  DefectSets = {{}, {"echo505", "cookieecho"}}
 INVARIANT TypeOK
 CHECK_DEADLOCK FALSE
